@@ -273,6 +273,8 @@ func cmdCheck(args []string) int {
 		obl   *obligationResult
 		viol  *violation
 		reach string
+		obs   []string
+		extra bool
 	}
 	var pend []pending
 	pkgOf := map[string]string{}
@@ -287,6 +289,9 @@ func cmdCheck(args []string) int {
 		sort.Strings(ids)
 		for _, id := range ids {
 			pend = append(pend, pending{entry: replayEntry{Property: prop, Harness: r.Name, Pkg: pkgOf[r.Name], Expect: "reach:" + id, Values: modelValues(r.ReachND[id], r.Reach[id])}, obl: r, reach: id})
+		}
+		for _, w := range r.MoreReach {
+			pend = append(pend, pending{entry: replayEntry{Property: prop, Harness: r.Name, Pkg: pkgOf[r.Name], Expect: "reach:" + w.ID, Values: modelValues(w.ND, w.Model)}, obl: r, reach: w.ID, obs: w.Obs, extra: true})
 		}
 		// at most a handful of counterexamples per assertion id
 		perID := map[string]int{}
@@ -348,7 +353,11 @@ func cmdCheck(args []string) int {
 			if strings.Contains(out, "REACH "+p.reach) {
 				reachOK++
 				// differential check of observed values (engine vs native)
-				for _, ob := range p.obl.ReachObs[p.reach] {
+				obsList := p.obl.ReachObs[p.reach]
+				if p.extra {
+					obsList = p.obs
+				}
+				for _, ob := range obsList {
 					if strings.HasSuffix(ob, "=?") {
 						continue
 					}
